@@ -333,6 +333,11 @@ pub fn edge_corpus(lang: Lang) -> Vec<String> {
                 v.push(format!("MATCH (n:Person) RETURN {e}"));
                 v.push(format!("MATCH (n:Person) WHERE {e} = 1 RETURN n.name"));
             }
+            // join-order optimiser: bit sets over relations (64 and more relations)
+            for n in [20usize, 64, 70] {
+                v.push(format!("{}RETURN n", "MATCH (n) ".repeat(n)));
+            }
+            // (a comma-separated pattern of 66 *different* variables is not used: its answer on G0 has 2^66 rows by definition)
             v.push("MATCH (n:Person) RETURN SUM(n.big) + SUM(n.big)".into());
             v.push("MATCH (n:Person) WITH n ORDER BY n.age LIMIT 0 RETURN AVG(n.age), MIN(n.age)".into());
             v.push("UNWIND [] AS x RETURN x".into());
